@@ -181,4 +181,234 @@ theorem prefix_reuse_sound (c : Cache) (prompt : List Tok) (now : Nat) (cr : Boo
   simp only [List.length_drop] at this
   omega
 
+
+/-! ## Coherent: the cache holds exactly what the records say -/
+
+/-- the entries of the slot's sequence at positions below the record length are exactly the recorded
+    inputs, input `k` at position `k` with its key row roped to `k`; a slot in use has nothing beyond
+    (a released slot may: the stop handling cuts the record without touching the cache, and the next
+    LoadCacheSlot erases from `numPast` on) -/
+def SlotOK (cells : List Cell) (sl : Slot) : Prop :=
+  ((view cells sl.id).filter (fun x => decide (x.1 < (sl.inputs.length : Int)))).Perm (canon sl.inputs)
+  ∧ (sl.inUse = true → ∀ x ∈ view cells sl.id, x.1 < (sl.inputs.length : Int))
+
+def Coherent (c : Cache) : Prop :=
+  PosBound c.cells ∧ ∀ j, ∀ hj : j < c.slots.length, c.slots[j].id = j ∧ SlotOK c.cells c.slots[j]
+
+theorem SlotOK_perm (cells cells' : List Cell) (sl : Slot)
+    (hp : (view cells' sl.id).Perm (view cells sl.id)) (h : SlotOK cells sl) : SlotOK cells' sl :=
+  ⟨(hp.filter _).trans h.1, fun hu x hx => h.2 hu x (hp.mem_iff.mp hx)⟩
+
+theorem coherent_update (c : Cache) (hc : Coherent c) (i : Nat) (hi : i < c.slots.length)
+    (f : Slot → Slot) (cells' : List Cell) (hid : (f c.slots[i]).id = i) (hb : PosBound cells')
+    (hother : ∀ t, t ≠ i → (view cells' t).Perm (view c.cells t))
+    (hself : SlotOK cells' (f c.slots[i])) :
+    Coherent { c with slots := setSlot c.slots i f, cells := cells' } := by
+  refine ⟨hb, fun j hj => ?_⟩
+  have hj' : j < c.slots.length := by simpa [setSlot] using hj
+  simp only [setSlot, List.getElem_modify]
+  by_cases hij : i = j
+  · subst hij; simp only [if_true]; exact ⟨hid, hself⟩
+  · simp only [hij, if_false]
+    obtain ⟨h1, h2⟩ := hc.2 j hj'
+    refine ⟨h1, SlotOK_perm c.cells cells' _ ?_ h2⟩
+    rw [h1]; exact hother j (fun h => hij h.symm)
+
+/-- cutting a coherent view at `n ≤ len` gives the canonical view of the first `n` inputs -/
+theorem cut_perm (V : List (Int × Tok × Int)) (inputs : List Tok) (n : Nat) (hn : n ≤ inputs.length)
+    (h : (V.filter (fun x => decide (x.1 < (inputs.length : Int)))).Perm (canon inputs)) :
+    (V.filter (fun x => decide (x.1 < (n : Int)))).Perm (canon (inputs.take n)) := by
+  have h2 := h.filter (fun x => decide (x.1 < (n : Int)))
+  rw [canon_filter_lt, List.filter_filter] at h2
+  have : (fun x : Int × Tok × Int => (decide (x.1 < (n : Int)) && decide (x.1 < (inputs.length : Int)))) =
+      (fun x => decide (x.1 < (n : Int))) := by
+    funext x
+    by_cases hx : x.1 < (n : Int)
+    · have : x.1 < (inputs.length : Int) := by omega
+      simp [hx, this]
+    · simp [hx]
+  rw [this] at h2
+  exact h2
+
+theorem slotOK_cut (cells : List Cell) (sl : Slot) (V : List (Int × Tok × Int)) (n : Nat) (u : Bool) (lu : Nat)
+    (hn : n ≤ sl.inputs.length) (h : SlotOK cells sl)
+    (cells' : List Cell) (hV : view cells' sl.id = (view cells sl.id).filter (fun x => decide (x.1 < (n : Int)))) :
+    SlotOK cells' { sl with inUse := u, lastUsed := lu, inputs := sl.inputs.take n } := by
+  have hl : (sl.inputs.take n).length = n := by simp [List.length_take]; omega
+  refine ⟨?_, ?_⟩
+  · simp only [hl, hV, List.filter_filter, Bool.and_self]
+    exact cut_perm _ _ n hn h.1
+  · intro _ x hx
+    simp only [hV] at hx
+    simp only [hl]
+    have := (List.mem_filter.mp hx).2
+    simpa using this
+
+/-- the fork of findBestCacheSlot (and the no-fork cases) keep the cache coherent -/
+theorem coherent_find (c : Cache) (hc : Coherent c) (prompt : List Tok) (c1 : Cache) (i n : Nat)
+    (sp : FindSpec c prompt c1 i n) : Coherent c1 := by
+  rcases sp.shape with rfl | ⟨li, hli, hne, hnl, rfl⟩
+  · exact hc
+  · have hi := sp.valid
+    obtain ⟨hidl, hokl⟩ := hc.2 li hli
+    obtain ⟨hidi, _⟩ := hc.2 i hi
+    rw [getSlot_eq _ _ hli, getSlot_eq _ _ hi, hidl, hidi] at *
+    apply coherent_update c hc i hi _ _ hidi (copy_bound _ _ _ _ hc.1)
+    · intro t ht; rw [copy_view_other _ _ _ _ ht]
+    · have hV := copy_view_dst li i (n : Int) hne c.cells
+      have hl : (c.slots[li].inputs.take n).length = n := by simp [List.length_take]; omega
+      refine ⟨?_, ?_⟩
+      · simp only [hidi, hV, hl, List.filter_filter, Bool.and_self]
+        have := cut_perm _ _ n hnl hokl.1
+        rw [hidl] at this; exact this
+      · intro _ x hx
+        simp only [hidi, hV] at hx
+        simp only [hl]
+        simpa using (List.mem_filter.mp hx).2
+
+theorem loadTail_ok (c : Cache) (i n : Nat) (prompt : List Tok) (now : Nat) (cr : Bool) (hb : PosBound c.cells)
+    (c' : Cache) (j : Nat) (rest : List Tok) (h : loadTail c i n prompt now cr = .ok (c', j, rest)) :
+    ∃ m, m ≤ n ∧
+      c' = { c with cells := (remove c.canShift c.cells (getSlot c.slots i).id (m : Int) maxI32).1,
+                    slots := setSlot c.slots i fun s => { s with inUse := true, lastUsed := now, inputs := s.inputs.take m } } := by
+  unfold loadTail at h
+  simp only at h
+  generalize hm1 : (if n = prompt.length then n - 1 else n) = m1 at h
+  generalize hm2 : (if (decide (m1 > 0) && !cr) = true then 0 else m1) = m2 at h
+  have hm1n : m1 ≤ n := by rw [← hm1]; split <;> omega
+  have hm2n : m2 ≤ m1 := by rw [← hm2]; split <;> omega
+  have hrc := (remove_clear c.canShift c.cells (getSlot c.slots i).id (m2 : Int) hb).1
+  simp only [hrc, Except.ok.injEq, Prod.mk.injEq] at h
+  exact ⟨m2, by omega, h.1.symm⟩
+
+theorem coherent_loadTail (c : Cache) (hc : Coherent c) (i n : Nat) (hi : i < c.slots.length)
+    (hn : n ≤ (getSlot c.slots i).inputs.length) (prompt : List Tok) (now : Nat) (cr : Bool)
+    (c' : Cache) (j : Nat) (rest : List Tok) (h : loadTail c i n prompt now cr = .ok (c', j, rest)) :
+    Coherent c' := by
+  obtain ⟨m, hmn, rfl⟩ := loadTail_ok c i n prompt now cr hc.1 c' j rest h
+  obtain ⟨hid, hok⟩ := hc.2 i hi
+  rw [getSlot_eq _ _ hi] at hn ⊢
+  rw [hid]
+  have hrc := remove_clear c.canShift c.cells i (m : Int) hc.1
+  apply coherent_update c hc i hi _ _ hid (remove_bound _ _ _ _ _ hc.1 (Int.natCast_nonneg _) (by unfold maxI32; omega))
+  · intro t ht; rw [remove_other _ _ _ _ ht]
+  · apply slotOK_cut c.cells c.slots[i] _ m true now (by omega) hok
+    rw [hid]; exact hrc.2
+
+/-- one token batch of one sequence stored by Forward and appended to the record -/
+def forward (c : Cache) (i : Nat) (new : List Tok) (loc : Nat) : Cache :=
+  let sl := getSlot c.slots i
+  { c with cells := store c.cells loc (mkBatch sl.id sl.inputs.length new),
+           slots := setSlot c.slots i fun s => { s with inputs := s.inputs ++ new } }
+
+theorem coherent_forward (c : Cache) (hc : Coherent c) (i : Nat) (hi : i < c.slots.length)
+    (new : List Tok) (loc : Nat) (hu : (getSlot c.slots i).inUse = true)
+    (hfree : ∀ x ∈ (c.cells.drop loc).take new.length, x.seqs = [])
+    (hpos : ((getSlot c.slots i).inputs.length : Int) + new.length < maxI32) :
+    Coherent (forward c i new loc) := by
+  obtain ⟨hid, hok⟩ := hc.2 i hi
+  unfold forward
+  simp only
+  rw [getSlot_eq _ _ hi] at hu hpos ⊢
+  rw [hid]
+  have hfree' : ∀ x ∈ (c.cells.drop loc).take (mkBatch i c.slots[i].inputs.length new).length, x.seqs = [] := by
+    rw [mkBatch_length]; exact hfree
+  apply coherent_update c hc i hi _ _ hid
+  · apply store_bound _ _ _ hc.1
+    intro t ht
+    have := mkBatch_pos _ _ _ t ht
+    omega
+  · intro t ht
+    have := store_view c.cells loc (mkBatch i c.slots[i].inputs.length new) t hfree'
+    rw [mkBatch_view] at this
+    simpa [ht] using this
+  · have hsv := store_view c.cells loc (mkBatch i c.slots[i].inputs.length new) i hfree'
+    rw [mkBatch_view] at hsv
+    simp only [if_true] at hsv
+    have hall : ∀ x ∈ view c.cells i, x.1 < (c.slots[i].inputs.length : Int) := by
+      have := hok.2 hu; rw [hid] at this; exact this
+    have hV : (view c.cells i).Perm (canon c.slots[i].inputs) := by
+      have := hok.1
+      rw [hid, filter_all _ _ (fun x hx => by simpa using hall x hx)] at this
+      exact this
+    have hnew : (view (store c.cells loc (mkBatch i c.slots[i].inputs.length new)) i).Perm
+        (canon (c.slots[i].inputs ++ new)) := by
+      refine hsv.trans ?_
+      unfold canon
+      rw [canonFrom_append, Nat.zero_add]
+      exact List.Perm.append_right _ hV
+    have hall' : ∀ x ∈ view (store c.cells loc (mkBatch i c.slots[i].inputs.length new)) i,
+        x.1 < ((c.slots[i].inputs ++ new).length : Int) := by
+      intro x hx
+      have := canonFrom_mem 0 _ x (hnew.mem_iff.mp hx)
+      omega
+    refine ⟨?_, ?_⟩
+    · simp only [hid]
+      rw [filter_all _ _ (fun x hx => by simpa using hall' x hx)]
+      exact hnew
+    · intro _; simp only [hid]; exact hall'
+
+/-- ShiftCacheSlot keeps the cache coherent: always on its success path; on its failure path when the
+    reset really clears the sequence (`resetEnd = MaxInt32`, the repaired source) -/
+theorem coherent_shift (c : Cache) (hc : Coherent c) (i keep : Nat) (hi : i < c.slots.length)
+    (hu : (getSlot c.slots i).inUse = true) (c' : Cache)
+    (h : shiftCacheSlot c i keep = .ok c' ∨ (c.resetEnd = maxI32 ∧ ∃ ins, shiftCacheSlot c i keep = .reprocess c' ins)) :
+    Coherent c' := by
+  obtain ⟨hid, hok⟩ := hc.2 i hi
+  unfold shiftCacheSlot at h
+  by_cases hk : keep ≥ c.numCtx
+  · simp [hk] at h
+  · simp only [hk, if_false] at h
+    rw [getSlot_eq _ _ hi] at h hu
+    rw [hid] at h
+    generalize hd : shiftDiscard c.numCtx c.slots[i].inputs.length keep = d at h
+    by_cases hd0 : d = 0
+    · simp only [hd0, if_true] at h
+      rcases h with h | ⟨_, ins, h⟩
+      · cases h; exact hc
+      · cases h
+    · simp only [hd0, if_false] at h
+      have hle : keep + d ≤ c.slots[i].inputs.length := by
+        rcases shiftDiscard_le c.numCtx c.slots[i].inputs.length keep (by omega) with h1 | h1
+        · rw [hd] at h1; exact h1
+        · rw [hd] at h1; exact absurd h1 hd0
+      have hall : ∀ x ∈ view c.cells i, x.1 < (c.slots[i].inputs.length : Int) := by
+        have := hok.2 hu; rw [hid] at this; exact this
+      have hV : (view c.cells i).Perm (canon c.slots[i].inputs) := by
+        have := hok.1
+        rw [hid, filter_all _ _ (fun x hx => by simpa using hall x hx)] at this
+        exact this
+      have hbnd := remove_bound c.canShift c.cells i (keep : Int) ((keep + d : Nat) : Int) hc.1
+        (Int.natCast_nonneg _) (by omega)
+      cases hr : (remove c.canShift c.cells i (keep : Int) ((keep + d : Nat) : Int)).2 with
+      | none =>
+        simp only [hr] at h
+        rcases h with h | ⟨_, ins, h⟩
+        · simp only [ShiftRes.ok.injEq] at h
+          subst h
+          have hself := remove_shift_self c.canShift c.cells i (keep : Int) ((keep + d : Nat) : Int)
+            (by omega) (by unfold maxI32; have := hc.1; sorry) hr
+          sorry
+        · cases h
+      | some e =>
+        simp only [hr] at h
+        rcases h with h | ⟨hre, ins, h⟩
+        · cases h
+        · simp only [ShiftRes.reprocess.injEq] at h
+          obtain ⟨rfl, _⟩ := h
+          rw [hre]
+          have hrc := remove_clear c.canShift _ i (0 : Int) hbnd
+          apply coherent_update c hc i hi _ _ hid
+            (remove_bound _ _ _ _ _ hbnd (by omega) (by unfold maxI32; omega))
+          · intro t ht; rw [remove_other _ _ _ _ ht, remove_other _ _ _ _ ht]
+          · have hnil : view (remove c.canShift (remove c.canShift c.cells i (keep : Int) ((keep + d : Nat) : Int)).1 i 0 maxI32).1 i = [] := by
+              rw [hrc.2]
+              apply filter_none
+              intro x hx
+              have := (view_pos_bound _ i hbnd x hx).1
+              simp only [decide_eq_false_iff_not]; omega
+            refine ⟨?_, ?_⟩
+            · simp only [hid, hnil]; exact List.Perm.refl _
+            · intro _ x hx; simp only [hid, hnil] at hx; cases hx
+
 end OllamaVerif.C07
